@@ -5,6 +5,21 @@ from pathlib import Path
 V = Path(__file__).resolve().parent.parent
 
 CLAIMED = {
+ "C02": ("Coq theorem c02_encoder_is_wire_format: for every well-formed environment, class and typed value the model of kio's encoder equals (also in failure) the Kafka wire format written independently in closed form (Codec/WireSpec.v: big-endian digits, base-128 minimal varints, ascending merge-sorted tags); three-way correspondence per run: kio's bytes = independent Python reference encoder = Coq spec_enc",
+         "machine-checked proof (Coq) of encoder = independent wire specification + three-way correspondence", "4 C02"),
+ "C03": ("Coq theorem c03_decoder_accepts_conforming: for every decorated value a conforming peer may send (explicitly sent defaults incl. explicit nulls, unknown tagged fields with arbitrary payloads at every nesting level, any trailing bytes) the decoder returns exactly the wire values with absent tagged fields defaulted; correspondence on reference-encoded decorated messages of every class",
+         "machine-checked proof (Coq) over all conforming encodings + wire-first correspondence", "4 C03"),
+ "C05": ("Coq theorems c05_canonical_reencodes / c05_decoder_output_encodable / c05_idempotent: canonical encodings of every typed value decode and re-encode to the same bytes; whatever the decoder returns from any byte string is typed, hence accepted by the encoder (up to the 2^35-byte tagged-section limits, stated as sizes_ok), and decode-then-encode is idempotent; wire-first correspondence",
+         "machine-checked proof (Coq) + wire-first correspondence", "4 C05"),
+ "C07": ("Coq theorems c07_sequence (any finite sequence of messages of arbitrary classes followed by arbitrary bytes decodes back to back to the original values), c07_tail_irrelevant / c07_consumes_prefix for every reader program, c07_any_append_sink for every append-only sink (Section hypothesis write-appends, checked on the real sinks); correspondence through BytesIO, write-only sink, BufferedWriter, asyncio.StreamWriter, read(n)-only source, BufferedReader",
+         "machine-checked proof (Coq) by induction over message lists + sink/source correspondence", "4 C07"),
+ "C11": ("Coq theorems over unbounded Z/lists: fixed-width round trip, exact byte length/big-endian value, out-of-range raises; varint minimal length, <=5/<=10 bytes, round trip; zig-zag non-negativity for every integer and round trips; every field-level primitive codec round trip/totality/typed outputs/permitted errors; correspondence of all 58 modelled public functions by name incl. exhaustive 8/16-bit and varint sweeps compared by CRC",
+         "machine-checked proof (Coq) + exhaustive/boundary correspondence of public primitives", "4 C11"),
+ "C17": ("Coq theorems c17_header_derived / c17_independent_decoder_recovers / c17_empty_rejected: the model of write_new_batch produces, for every non-empty record list, a batch whose fields at the format's byte offsets are the derived values, batch_length = len-12, CRC-32C over bytes 21..end, and an independent decoder recovers exactly the records; correspondence with kio.records.writers + independent Python decoder",
+         "machine-checked proof (Coq) against an independent format parser + correspondence", "4 C17"),
+ "C18": ("Coq theorems: c18_fields_as_encoded, c18_magic_checked, c18_crc_checked, c18_crc_single_bit (CRC-32C detects every single-bit error in messages of any length, by GF(2)-linearity), c18_bit_flip_rejected, c18_truncation_rejected; correspondence on reference-encoded batches and the broker fixtures under identity/bit flips/truncation/CRC-forced truncation; one recorded known finding (whole-second record timestamps)",
+         "machine-checked proof (Coq) incl. CRC linearity + fault-enumeration correspondence", "4 C18"),
+
  "C01": ("Coq theorem c01_roundtrip (Props/C01.v): for EVERY well-formed plan environment, class, typed canonical value and trailing bytes, decode(encode v ++ tl) = (v, tl); instance wf_env(shipped plans)=true by vm_compute; model tied to kio by a per-run correspondence on generated instances of all 1629 classes",
          "machine-checked proof (Coq) + translator-regenerated instance + correspondence", "4 C01"),
  "C06": ("Coq theorem c06_truncated_is_underflow: every strict prefix of every encoding decodes to BufferUnderflow (from the generic reader-program metatheorem run_prefix_underflow + round trip + fuel monotonicity); correspondence runs every cut of generated encodings through a read(n)-only source",
@@ -20,18 +35,11 @@ CLAIMED = {
 }
 
 NOT_YET = {
- "C02": "check under construction in this session (WireSpec model not yet proved); will be claimed when built",
- "C03": "check under construction in this session (conforming-encoding model not yet proved)",
  "C04": "check under construction in this session (pinned schema + generator run)",
- "C05": "check under construction in this session",
- "C07": "check under construction in this session (theorems proved in Props/C07.v, correspondence harness pending)",
- "C11": "check under construction in this session (primitive theorems proved, harness pending)",
  "C12": "check under construction in this session",
  "C13": "check under construction in this session (instance theorem exists, correspondence pending)",
  "C15": "check under construction in this session",
  "C16": "check under construction in this session",
- "C17": "check under construction in this session (theorems proved in Records/BatchProofs.v, harness pending)",
- "C18": "check under construction in this session (theorems proved in Records/BatchProofs.v, harness pending)",
  "C19": "check under construction in this session",
 }
 
